@@ -471,6 +471,28 @@ func (pc *PartitionContext) reverseInflightReplacements(app *objects.Application
 	}
 }
 
+// cancelInflightReplacement handles the release of the real allocation of an inflight placeholder replacement. Until
+// the shim confirms the release of the placeholder the real allocation is not an allocation of the application: it is
+// an allocated ask linked to the placeholder and, when placed on another node than the placeholder, registered on that
+// node. Unlink the placeholder and clean up the node, the ask itself is removed by the caller.
+func (pc *PartitionContext) cancelInflightReplacement(app *objects.Application, allocationKey string) {
+	ask := app.GetAllocationAsk(allocationKey)
+	if ask == nil || ask.IsPlaceholder() || !ask.IsAllocated() {
+		return
+	}
+	ph := ask.GetRelease()
+	if ph == nil || !ph.IsPlaceholder() {
+		return
+	}
+	ph.ClearRelease()
+	ask.ClearRelease()
+	if ask.GetNodeID() != ph.GetNodeID() {
+		if node := pc.GetNode(ask.GetNodeID()); node != nil {
+			node.RemoveAllocation(allocationKey)
+		}
+	}
+}
+
 // removeInflightReplacements cleans up the real allocations of inflight placeholder replacements. A replacement
 // on a different node than the placeholder is registered on that node only, until the shim confirms the release of
 // the placeholder. When the placeholders are removed with the application that confirmation never comes.
@@ -1567,6 +1589,10 @@ func (pc *PartitionContext) removeAllocation(release *si.AllocationRelease) ([]*
 	// a placeholder that is removed without its replacement being confirmed leaves the replacement half done
 	if release.TerminationType != si.TerminationType_PLACEHOLDER_REPLACED {
 		pc.reverseInflightReplacements(app, released)
+		// the same for the other half: the real allocation is released before the replacement is confirmed
+		if len(released) == 0 && allocationKey != "" {
+			pc.cancelInflightReplacement(app, allocationKey)
+		}
 	}
 
 	total := resources.NewResource()
